@@ -550,46 +550,48 @@ func gateSlices(w *World, r *Report) {
 	}
 	// stores of a composite with data field into *shardInfo
 	n := 0
-	for _, b := range fn.Blocks {
-		for _, in := range b.Instrs {
-			st, ok := in.(*ssa.Store)
-			if !ok {
-				continue
-			}
-			// store into field .data of a shardIntegrityInfo
-			fa, ok := st.Addr.(*ssa.FieldAddr)
-			if !ok || fieldName(fa.X.Type(), fa.Field) != "data" || namedTypeName(fa.X.Type()) != "par2.shardIntegrityInfo" {
-				continue
-			}
-			n++
-			key := fmt.Sprintf("G7:fillShardInfos:data-store#%d", n-1)
-			slice := stripConv(st.Val)
-			ok2 := false
-			for _, c := range cmpsAt(b) {
-				if c.Y == nil {
+	for _, rf := range region(fn) {
+		for _, b := range rf.Blocks {
+			for _, in := range b.Instrs {
+				st, ok := in.(*ssa.Store)
+				if !ok {
 					continue
 				}
-				// len(found) != 0   or   len(found) > 0
-				var lenv ssa.Value
-				if z, isC := constInt(c.Y); isC && z == 0 && (c.Op == token.NEQ || c.Op == token.GTR) {
-					lenv = c.X
-				}
-				if lenv == nil {
+				// store into field .data of a shardIntegrityInfo
+				fa, ok := st.Addr.(*ssa.FieldAddr)
+				if !ok || fieldName(fa.X.Type(), fa.Field) != "data" || namedTypeName(fa.X.Type()) != "par2.shardIntegrityInfo" {
 					continue
 				}
-				lc := isBuiltinCall(lenv, "len")
-				if lc == nil {
-					continue
+				n++
+				key := fmt.Sprintf("G7:fillShardInfos:data-store#%d", n-1)
+				slice := stripConv(w.up(stripConv(st.Val)))
+				ok2 := false
+				for _, c := range w.factsAt(st) {
+					if c.Y == nil {
+						continue
+					}
+					// len(found) != 0   or   len(found) > 0
+					var lenv ssa.Value
+					if z, isC := constInt(c.Y); isC && z == 0 && (c.Op == token.NEQ || c.Op == token.GTR) {
+						lenv = c.X
+					}
+					if lenv == nil {
+						continue
+					}
+					lc := isBuiltinCall(lenv, "len")
+					if lc == nil {
+						continue
+					}
+					get := callOf(lc.Call.Args[0], "(par2.checksumShardLocationMap).get")
+					if get != nil && stripConv(get.Call.Args[2]) == slice {
+						ok2 = true
+					}
 				}
-				get := callOf(lc.Call.Args[0], "(par2.checksumShardLocationMap).get")
-				if get != nil && stripConv(get.Call.Args[2]) == slice {
-					ok2 = true
+				if ok2 {
+					r.ok("GATE", key, w.ipos(st), "slice recorded as found only where checksumToLocation.get(crc, slice) on the same slice is non-empty")
+				} else {
+					r.bad("GATE", key, w.ipos(st), "slice data is recorded as usable without a non-empty CRC32+MD5 lookup of that same slice")
 				}
-			}
-			if ok2 {
-				r.ok("GATE", key, w.ipos(st), "slice recorded as found only where checksumToLocation.get(crc, slice) on the same slice is non-empty")
-			} else {
-				r.bad("GATE", key, w.ipos(st), "slice data is recorded as usable without a non-empty CRC32+MD5 lookup of that same slice")
 			}
 		}
 	}
